@@ -516,11 +516,15 @@ func c02Exec(cs c02Case) (out core.Outcome, key string, uniform bool) {
 			return fail("engine:model-text-does-not-parse", "%v\n%s", err, want[i])
 		}
 		var got string
-		if p := guard(func() { got, err = printFile(f) }); p != "" {
+		var differs string
+		if p := guard(func() { got, err, differs = printFileBoth(f) }); p != "" {
 			return fail("print-panic:"+short(p, 60), "printing the edited tree panicked: %s", p)
 		}
 		if err != nil {
 			return fail("print-error", "%v", err)
+		}
+		if differs != "" {
+			return fail("print-depends-on-fileset-position", "%s", differs)
 		}
 		// the same tree printed by a Restorer with Extras must not differ (objects of deleted or cloned
 		// elements still point at their old declarations)
